@@ -5,7 +5,8 @@ from .. import netmc, netcheck, plugins, oracles
 from ..netmc import Scenario, HttpOrigin
 
 PROP = 'C04'
-ADDR = {'a': ('10.0.1.1', 80), 'b': ('10.0.1.2', 80), 'u1': ('10.0.2.1', 80), 'u2': ('10.0.2.2', 81)}
+ADDR = {'a': ('10.0.1.1', 80), 'b': ('10.0.1.2', 80), 'a8': ('10.0.1.1', 8080), 'u1': ('10.0.2.1', 80), 'u2': ('10.0.2.2', 81),
+        'u1b': ('10.0.2.1', 8080)}
 DNS = {'a.test': '10.0.1.1', 'b.test': '10.0.1.2', 'u1.test': '10.0.2.1', 'u2.test': '10.0.2.2'}
 
 
@@ -41,7 +42,8 @@ def web_plugins():
 
 
 def rev_plugin():
-    return plugins.reverse([(r'/r1/', [b'http://u1.test/p1']), (r'/r2/', [b'http://u2.test:81/p2'])], name='VerifRevC04')
+    return plugins.reverse([(r'/r1/', [b'http://u1.test/p1']), (r'/r2/', [b'http://u2.test:81/p2']),
+                            (r'/r3/', [b'http://u1.test:8080/p3'])], name='VerifRevC04b')
 
 
 # ---- request alphabet: (symbol, target kind) -> bytes, expectation
@@ -49,23 +51,24 @@ def rev_plugin():
 def mkreq(role, sym, i):
     """Returns (wire bytes, expected dict(origin, method, path, body))."""
     if role == 'forward':
-        host = {'G': 'a', 'P': 'a', 'C': 'a', 'B': 'b'}[sym]
+        host = {'G': 'a', 'P': 'a', 'C': 'a', 'B': 'b', 'D': 'a'}[sym]
+        port = b':8080' if sym == 'D' else b''
         path = b'/x%d' % i
-        target = b'http://%s.test%s' % (host.encode(), path)
-        hosthdr = b'Host: %s.test\r\n' % host.encode()
+        target = b'http://%s.test%s%s' % (host.encode(), port, path)
+        hosthdr = b'Host: %s.test%s\r\n' % (host.encode(), port)
         exp_path = path
-        exp_origin = host
+        exp_origin = 'a8' if sym == 'D' else host
     elif role == 'web':
-        route = {'G': 'wa', 'P': 'wa', 'C': 'wa', 'B': 'wb'}[sym]
+        route = {'G': 'wa', 'P': 'wa', 'C': 'wa', 'B': 'wb', 'D': 'wb'}[sym]
         path = b'/%s/x%d' % (route.encode(), i)
         target, hosthdr, exp_path, exp_origin = path, b'Host: front\r\n', path, route
     else:
-        route = {'G': 'r1', 'P': 'r1', 'C': 'r1', 'B': 'r2'}[sym]
+        route = {'G': 'r1', 'P': 'r1', 'C': 'r1', 'B': 'r2', 'D': 'r3'}[sym]
         path = b'/%s/x%d' % (route.encode(), i)
         target, hosthdr = path, b'Host: front\r\n'
-        exp_path = {'r1': b'/p1', 'r2': b'/p2'}[route]
-        exp_origin = {'r1': 'u1', 'r2': 'u2'}[route]
-    if sym in ('G', 'B'):
+        exp_path = {'r1': b'/p1', 'r2': b'/p2', 'r3': b'/p3'}[route]
+        exp_origin = {'r1': 'u1', 'r2': 'u2', 'r3': 'u1b'}[route]
+    if sym in ('G', 'B', 'D'):
         raw = b'GET %s HTTP/1.1\r\n%s\r\n' % (target, hosthdr)
         method, body = b'GET', b''
     elif sym == 'P':
@@ -81,12 +84,13 @@ def mkreq(role, sym, i):
 
 
 def sequences(tier):
-    syms = 'GPCB'
+    syms = 'GPCBD'
     seqs = [s for n in (1, 2) for s in itertools.product(syms, repeat=n)]
     if tier == 'thorough':
         seqs += list(itertools.product(syms, repeat=3))
     else:
-        seqs += [('G', 'G', 'G'), ('G', 'P', 'G'), ('P', 'C', 'G'), ('G', 'B', 'G'), ('C', 'C', 'C'), ('B', 'G', 'B')]
+        seqs += [('G', 'G', 'G'), ('G', 'P', 'G'), ('P', 'C', 'G'), ('G', 'B', 'G'), ('C', 'C', 'C'), ('B', 'G', 'B'),
+                 ('G', 'D', 'G'), ('D', 'B', 'D')]
     return seqs
 
 
@@ -115,13 +119,13 @@ def scenarios(tier):
     for role in ('forward', 'web', 'reverse'):
         if role == 'forward':
             fa, fo = ['--threadless'], {}
-            origins = {ADDR['a']: origin('a'), ADDR['b']: origin('b')}
+            origins = {ADDR['a']: origin('a'), ADDR['b']: origin('b'), ADDR['a8']: origin('a8')}
         elif role == 'web':
             fa, fo = ['--threadless', '--enable-web-server'], {'plugins': web_plugins()}
             origins = {}
         else:
             fa, fo = ['--threadless', '--enable-reverse-proxy'], {'plugins': [rev_plugin()]}
-            origins = {ADDR['u1']: origin('u1'), ADDR['u2']: origin('u2')}
+            origins = {ADDR['u1']: origin('u1'), ADDR['u2']: origin('u2'), ADDR['u1b']: origin('u1b')}
         for seq in sequences(tier):
             built = [mkreq(role, s, i) for i, s in enumerate(seq)]
             reqs = [b[0] for b in built]
